@@ -7,11 +7,12 @@ import numpy as np
 @contextlib.contextmanager
 def patched(obj, name, wrapper_factory):
     orig = getattr(obj, name)
+    raw = obj.__dict__.get(name) if isinstance(obj, type) else None   # keeps staticmethod / classmethod descriptors intact
     setattr(obj, name, wrapper_factory(orig))
     try:
         yield
     finally:
-        setattr(obj, name, orig)
+        setattr(obj, name, raw if raw is not None else orig)
 
 
 def schur_monitor(ctx, log):
